@@ -117,7 +117,15 @@ def main(run):
     stats = collections.Counter()
     positions = []
     for i in range(npairs):
-        spec = fixed[i] if i < len(fixed) else mapgen.gen_pair(run.rng, quirks=(i % 10 == 9))
+        if i < len(fixed):
+            spec = fixed[i]
+        else:
+            # C09 is about nil positions: take a pair whose root has at least two of them on either side
+            for _ in range(10):
+                spec = mapgen.gen_pair(run.rng, quirks=(i % 10 == 9))
+                sty0, dty0 = mh.root_types(spec, spec["root"])
+                if len(mapgen.nil_positions(spec, sty0)) >= 2 or len(mapgen.nil_positions(spec, dty0)) >= 2:
+                    break
         p = mh.Pair(i, spec)
         p.cases, st = gen_cases(run, spec, budget)
         stats["exhaustive"] += st["exhaustive"]
@@ -180,7 +188,7 @@ def main(run):
     cov = {
         "evaluations": ncases,
         "distinct_nontrivial": len(distinct),
-        "rule": ("%d src/dest pairs (the 10 corpus pairs + random pairs of harness/mapgen.py, as in C05); for the root type and "
+        "rule": ("%d src/dest pairs (the 16 corpus pairs + random pairs of harness/mapgen.py, as in C05); for the root type and "
                  "every inner mapped type, in each generated direction: all 2^k assignments of nil/non-nil to the k nil-able "
                  "positions of the input (pointers, embedded pointers at depth 1 and 2, slices, maps, the first two elements of "
                  "slices of pointers/structs, recursively through sub-structs) when k <= 6, otherwise none/all/each single/each "
@@ -194,6 +202,7 @@ def main(run):
         "pairs_in_guard": sum(1 for p in ok_pairs if guards.get(p.idx)),
         "roots_exhaustive_patterns": stats["exhaustive"], "roots_sampled_patterns": stats["sampled"],
         "nil_positions_per_root": dict(sorted(collections.Counter(positions).items())),
+        "roots_with_zero_positions": sum(1 for k in positions if k == 0),
         "receiver_twins_compared": ntwins,
         "cases_certified_by_theorem": ncases - len(uncert) - hop_cases,
         "cases_in_pointer_mapper_pairs_not_certified": hop_cases,
